@@ -19,7 +19,8 @@ CLAIMED = {
                 "retained snapshots, current pointer, manifest structure of every retained snapshot (carried by reference / rewritten / "
                 "dropped), unreferenced-file counts. Oracle: after every step every retained snapshot re-read by the independent reader "
                 "(bytes → rows) and through the library's file manager vs the record made at its commit; timestamp lookups at every retained "
-                "timestamp ±1; current pointer after deleting the current snapshot.",
+                "timestamp ±1; current pointer after deleting the current snapshot."
+                " Also: commit_keeps_snapshots, failed_and_gc_keep_metadata, expiry_exact, metadata_log_bound_is_not_a_snapshot_bound — a snapshot leaves the table only through an expiry (older than the cutoff, never the current one) or an explicit deletion; oracle clause for it, scripted histories with a clock stepping back across an expiry, markers of committed transactions left behind for days, a metadata-log bound.",
         "design_ref": "§6 C09",
         "note": "Rows are not modelled separately from data files (write-once; the oracle re-reads the bytes). One actor at a time; "
                 "snapshot ids fresh. Local backend.",
@@ -40,7 +41,8 @@ CLAIMED = {
                 "pyarrow's conversion (re-measured each run on the installed pyarrow), schema-argument acceptance and batch acceptance of the "
                 "real library vs the model on the whole grid. Oracle: whole grid × optional/required, 10 schema-argument variants × fresh / "
                 "reused handle × schema id, 8 record shapes in two-record batches; accepted → read back exactly through same and fresh "
-                "handle incl. per-column filtered scans; rejected → snapshots, rows and reachable files unchanged. all_queued_appends_committed / queued_appends_exact — every file of every append queued in one transaction reaches the commit in queue order (TxOps model of the partition loop; witness last_append_only_loses_rows; tie tx.partition); oracle also: large appends (999–4321 rows), multi-operation transactions, pre-built files with the same base name / offered again after a rejection, the handle's state after a rejected append.",
+                "handle incl. per-column filtered scans; rejected → snapshots, rows and reachable files unchanged. all_queued_appends_committed / queued_appends_exact — every file of every append queued in one transaction reaches the commit in queue order (TxOps model of the partition loop; witness last_append_only_loses_rows; tie tx.partition); oracle also: large appends (999–4321 rows), multi-operation transactions, pre-built files with the same base name / offered again after a rejection, the handle's state after a rejected append."
+                " A batch rejected because of a later member leaves nothing queued: committing the same transaction afterwards publishes none of its files.",
         "design_ref": "§6 C11",
         "note": "Values are abstracted to value classes; what 'exactly as supplied up to the declared type's representation' means per type is "
                 "the harness function represents() (tz-aware datetimes keep their instant; bytes↔str, int→float when exactly representable). "
@@ -55,7 +57,8 @@ CLAIMED = {
                 "raises; untouched_same; damaged_touched_raises_refuted — machine-checked witness of the known finding (current metadata file "
                 "missing → an older version is served), replayed on every read API. Tie/oracle: every file reachable from the current snapshot of "
                 "a 4-commit table × 12 damage classes + transient error × 7 read APIs/options on the real library; the damage class is judged by "
-                "an independent parse; observed outcome compared with rd.outcome.",
+                "an independent parse; observed outcome compared with rd.outcome."
+                " Snapshot-inspection getters (current_snapshot, snapshots, time_travel) among the read APIs; valid-JSON-but-not-a-manifest bytes.",
         "design_ref": "§6 C14",
         "note": "Parsers (json, fastavro, pyarrow) are classified by observation; damages that still parse with different content on metadata-plane "
                 "files (no checksum there) and unverified altered data bytes are outside the statement.",
@@ -69,10 +72,11 @@ CLAIMED = {
                 "admits the sibling /wh2 for /wh. Tie: _resolve_path vs the lexical model on an exhaustive component grammar (symlink-free). "
                 "Oracle on a REAL filesystem with symlinks inside the root pointing inside and outside, a sibling-prefix directory and the root "
                 "reached directly or through a symlink: exhaustive path grammar × 15 read + 5 mutating entry points under a Python audit hook "
-                "(every open / listdir / remove / rename / mkdir resolved with realpath) + fingerprint of a sentinel tree outside the root.",
+                "(every open / listdir / remove / rename / mkdir resolved with realpath) + fingerprint of a sentinel tree outside the root."
+                " S3: s3_key_under_prefix, s3_key_literal (every requested key lies under the table prefix, nothing is normalised), normalised_key_escapes (witness); tie path.s3key; every S3 entry point on an exhaustive path grammar with two tables sharing a bucket. Escaping oracle decided by the operating system's meaning of the path (realpath): '<symlink>/..' spellings and absolute paths through inside symlinks must be rejected.",
         "design_ref": "§6 C17",
         "note": "Symlink resolution (os.path.realpath / the kernel's walk) is an assumed contract exercised on the real filesystem, not modelled; "
-                "TOCTOU is outside the quantifier; the S3 backend has no filesystem paths.",
+                "TOCTOU is outside the quantifier; S3 keys are literal strings under the table prefix (modelled and tied).",
         "technique": "Lean 4 theorems on lexical path resolution + exhaustive real-filesystem sweep with an audit hook",
     },
     "C03": {
@@ -84,7 +88,8 @@ CLAIMED = {
                 "and kept as a theorem. Oracle: REAL crash images — the table directory copied before EVERY os-level call the library makes "
                 "(temp creation, write, fsync, close, rename, unlink, directory fsync) during create / append / delete-files / expire / "
                 "delete-snapshot / collect, plus truncated-temp-file variants inside the parquet write; each image re-read by the independent "
-                "reader and the library, appended to, and collected (only unreachable leftovers may go, none may stay).",
+                "reader and the library, appended to, and collected (only unreachable leftovers may go, none may stay)."
+                " Object storage: crash images at every mutating request of create / append / delete (both commit paths) with the dead writer's lock left behind; a dead holder's lock is taken over through the real acquire loop once its lease lapsed (Lean: dead_holder_taken_over in Props/C19).",
         "design_ref": "§6 C03",
         "note": "Process death only (power loss is C16); rename atomicity and flock release on death are kernel contracts; a death inside pyarrow's "
                 "C++ writer is represented by truncated temp files.",
@@ -98,7 +103,8 @@ CLAIMED = {
                 "judge_sound — the judge means exactly that. Tie/oracle: every operation type × several table sizes is run in a child process "
                 "under strace (sees pyarrow's C++ parquet writes); the proved-sound Lean judge is evaluated on EVERY prefix of the REAL trace, "
                 "and each written file's event sequence is compared with the model's lowering. Witness examples show the judge rejecting a "
-                "missing file fsync, a missing directory fsync and a pointer written first. fsync_failure_no_flip — when the fsync of ANY referenced file fails (every number of files, every failing position) the commit trace contains no rename onto the pointer; checked on the library by failing the k-th file fsync of append / two-append / delete commits for every k.",
+                "missing file fsync, a missing directory fsync and a pointer written first. fsync_failure_no_flip — when the fsync of ANY referenced file fails (every number of files, every failing position) the commit trace contains no rename onto the pointer; checked on the library by failing the k-th file fsync of append / two-append / delete commits for every k."
+                " Object storage: every PUT of a commit broken once AFTER its body went out (a stream body is consumed): an acknowledged operation reaches only complete objects. Two threads through ONE Table object with overlapping commits judged at the second thread's pointer flip.",
         "design_ref": "§6 C16",
         "note": "Disk/kernel honour fsync (assumed). Pre-existing files are taken as durable; ancestor directories' durability is an assumption (§7).",
         "technique": "Lean 4 theorems on a power-loss model + a proved-sound judge run on real strace traces",
@@ -112,7 +118,8 @@ CLAIMED = {
                 "before effect, exception after effect on object storage, KeyboardInterrupt; SystemExit in thorough) at EVERY storage and lock "
                 "call of append / delete-files / expire / delete-snapshot commits on local, CAS-S3 and non-CAS S3, context-manager and explicit "
                 "style; after each run an independent re-read of every retained snapshot, pre/post classification, fate of the transaction's "
-                "files, follow-up append; outcome triple compared with cf.outcome. body_failure_never_commits — however the body of a with-block fails (Exception or interrupt) __exit__ never commits; reuse_deletes_only_own_attempt — a re-begun Transaction deletes on a clean failure exactly the files of THAT attempt (+ witnesses for the Exception-only exit and the missing reset); ties cf.exit / cf.reuse; oracle also: the metadata lock is released on every way out, non-OSError store errors, interrupt inside the with-body, reuse after an ambiguous commit.",
+                "files, follow-up append; outcome triple compared with cf.outcome. body_failure_never_commits — however the body of a with-block fails (Exception or interrupt) __exit__ never commits; reuse_deletes_only_own_attempt — a re-begun Transaction deletes on a clean failure exactly the files of THAT attempt (+ witnesses for the Exception-only exit and the missing reset); ties cf.exit / cf.reuse; oracle also: the metadata lock is released on every way out, non-OSError store errors, interrupt inside the with-body, reuse after an ambiguous commit."
+                " Failed / interrupted / rolled-back transactions that had queued pre-built files (a file of a retained snapshot re-added) keep those files.",
         "design_ref": "§6 C04",
         "note": "Faults are injected at storage/lock call boundaries (an interrupt between two bytecodes of pure bookkeeping is equivalent to one "
                 "at the next boundary); double faults are not enumerated.",
@@ -127,7 +134,8 @@ CLAIMED = {
                 "× 1–3 real writers (append, two-append transaction, delete, rollback, failed commit) under the deterministic scheduler; each "
                 "read's pointer-read positions on the flip timeline are fed to the reader model which must predict the result; oracle: result = "
                 "row multiset of one version current during the read (independent reader), per-handle order monotone, two-append transaction "
-                "visible all-or-nothing.",
+                "visible all-or-nothing."
+                " Object storage: a reader reading after EVERY request of a commit, incl. a pointer PUT that lands while its answer is lost.",
         "design_ref": "§6 C02",
         "note": "Immutability/presence of files of versions that were ever current is C01/C05/C06/C09's business and is exercised here by the oracle.",
         "technique": "Lean 4 theorems over a pointer-timeline reader model + suffix-monotonicity in the OCC system; scheduled readers×writers",
@@ -139,7 +147,8 @@ CLAIMED = {
                 "metadata_first_refuted — machine-checked witness of the defect found (metadata read before marker load), replayed on the real "
                 "collector under the scheduler, then repaired. Tie: real garbage_collect × 1–2 real transactions with aged data files, "
                 "rollbacks, at storage-operation granularity; the abstract trace replayed on the model must yield the same deleted set; oracle: "
-                "every file of every snapshot of the final metadata exists. prebuilt_unmarked_refuted — witness of the repaired defect c834a8f (a pre-built file queued without a marker is deleted and then committed); sweeps: whole collection after each gated operation of a commit at grace 0 (append, partial delete, failed marker write, pre-built file flat / nested), of a retrying commit, two collections around one long transaction, aged markers.",
+                "every file of every snapshot of the final metadata exists. prebuilt_unmarked_refuted — witness of the repaired defect c834a8f (a pre-built file queued without a marker is deleted and then committed); sweeps: whole collection after each gated operation of a commit at grace 0 (append, partial delete, failed marker write, pre-built file flat / nested), of a retrying commit, two collections around one long transaction, aged markers."
+                " A reused Transaction object queuing the same pre-built file again after a rollback; a collection right after the data-file write.",
         "design_ref": "§6 C06",
         "note": "Assumes the grace period exceeds the run and a live transaction is younger than the abandonment timeout; file names are fresh.",
         "technique": "Lean 4 invariant over the collector×transactions transition system + trace replay of scheduled real executions",
@@ -154,7 +163,8 @@ CLAIMED = {
                 "fallback, sweep before listing, dangling hint), each replayed on the real collector and repaired. Tie: the REAL "
                 "GarbageCollector.collect runs on a fully scripted environment realising random abstract inputs and must agree with gc.run; "
                 "oracle: every single fault at every storage call of a real run, every corruption class of every reachable metadata-plane file, "
-                "escaping listings, marker faults.",
+                "escaping listings, marker faults."
+                " Error classes FileNotFoundError / PermissionError / TimeoutError on marker reads; corruption classes that are VALID JSON but not a file of the kind ('{}', '[]', 'null', metadata JSON without its snapshots / current-snapshot fields).",
         "design_ref": "§6 C07",
         "note": "Fault = exception before effect on the local backend; parser result classes (missing/truncated/garbage/empty/transient) observed.",
         "technique": "Lean 4 theorems over the collector's decision function (all fault combinations) + correspondence on scripted environments",
@@ -167,7 +177,8 @@ CLAIMED = {
                 "one_init_cas — with create-if-absent and NO lock assumption at most one initialisation takes effect and the pointer is never "
                 "replaced; witnesses for the two windows that need the lock. Tie: real create_table / load_table / first-append callers run as "
                 "threads under the scheduler on local and in-memory CAS S3 from four initial states; every trace accepted by create.trace; "
-                "oracle on identity, rows and persisted schema; schema-persistence semantics checked directly.",
+                "oracle on identity, rows and persisted schema; schema-persistence semantics checked directly."
+                " Pointer lost on a table whose version number has two digits (numeric, not lexicographic, recovery).",
         "design_ref": "§6 C18",
         "note": "Recovery's mtime tie-break is modelled as write order; a first appender's commit itself is C01's protocol.",
         "technique": "Lean 4 invariants over the creation transition system + trace acceptance of scheduled real executions",
@@ -180,7 +191,8 @@ CLAIMED = {
                 "takeover_only_after_lease; superseded_observes_loss; held_answer_sound; owned_object_persists_partial (conditional delete) and "
                 "owned_object_persists_refuted — the machine-checked witness of the release-spans-takeover defect, replayed on the real "
                 "S3LockProvider (known finding). Tie: real FileLock instances on the REAL kernel and the real S3LockProvider on the in-memory S3 "
-                "run under the scheduler with a virtual clock and are compared step by step with lock.frun / lock.srun; 8-process stress. s3_timeout_bound — a contender blocked for its whole timeout gets TimeoutError in [timeout, timeout + one poll interval] for every sequence of jitter draws (pollLoop tied to the real acquire loop via lock.poll); unclamped_backoff_overshoots — witness for an unclamped exponential back-off. Open()→flock() gap sweep and lock-file identity on the real kernel.",
+                "run under the scheduler with a virtual clock and are compared step by step with lock.frun / lock.srun; 8-process stress. s3_timeout_bound — a contender blocked for its whole timeout gets TimeoutError in [timeout, timeout + one poll interval] for every sequence of jitter draws (pollLoop tied to the real acquire loop via lock.poll); unclamped_backoff_overshoots — witness for an unclamped exponential back-off. Open()→flock() gap sweep and lock-file identity on the real kernel."
+                " dead_holder_taken_over / live_holder_not_taken_over (one undisturbed acquisition pass takes a lapsed lock over, and leaves a live one alone); is_held across a takeover with scheduling points between calls that make no request; environment-flag capitalisation selects the same lock provider.",
         "design_ref": "§6 C19",
         "note": "Kernel flock semantics are an assumed contract sampled every run on the real kernel; the S3 heartbeat thread is replaced by a "
                 "schedulable renew event; the polling (non-CAS) provider is documented best-effort and not claimed.",
@@ -195,7 +207,8 @@ CLAIMED = {
                 "machine-checked witness of the defect found (equal-millisecond stamp) and was replayed on the library, then repaired. "
                 "Tie: real committers run as threads under a deterministic scheduler at storage-operation granularity (local and in-memory "
                 "CAS S3, shared and separate handles, frozen/coarse/real clocks); every trace must be accepted step by step by the Lean "
-                "transition system (values read, stamps written, outcomes) and the final table must be serializable w.r.t. acknowledgements.",
+                "transition system (values read, stamps written, outcomes) and the final table must be serializable w.r.t. acknowledgements."
+                " The virtual clock is bound in every datashard module that names `datetime` (a change that derives ids from the clock is exercised under frozen clocks).",
         "design_ref": "§6 C01",
         "note": "Exclusive-lock hypothesis for the local backend is C19's theorem + the kernel's flock contract. Manifest-level content of commits is "
                 "checked by the oracle (independent reader), the model abstracts a version to (stamp, applied transactions).",
@@ -208,7 +221,8 @@ CLAIMED = {
                 "lost_lock_is_conflict — a failed fencing check yields a conflict, no flip. two_reads_refuted is the machine-checked witness of "
                 "the defect found (validation read ≠ ETag read), replayed on the library with a no-exclusion lock, then repaired. Tie: scheduled "
                 "real committers on the in-memory CAS S3 with a free lock / the real CAS lock / injected lease lapses; trace acceptance + "
-                "serializability oracle.",
+                "serializability oracle."
+                " One writer object committing twice in a row × the other committer's whole commit before each request; first accesses to a table in the legacy pointer format.",
         "design_ref": "§6 C08",
         "note": "S3 conditional-PUT semantics are those of harness/fakes3.py; the lock object's own protocol is C19's subject.",
         "technique": "Lean 4 invariant over the CAS transition system with an arbitrary lock + trace acceptance of scheduled real executions",
@@ -221,7 +235,8 @@ CLAIMED = {
                 "lifted by induction to every history. repoint_correct for every forest incl. cycles/dangling parents; current_never_expired; "
                 "mlog_bounded; rewrite_preserves_origin + delete-exactness; last_seq_monotone. Correspondence: the real repoint / retention / "
                 "expiry / delete_snapshot / metadata-log code vs the model on all forests ≤3 (4 sampled) and on whole real-table histories "
-                "step by step; an independent invariant checker reads the JSON and manifests after every step. all_queued_deletes_applied / queued_deletes_exact / one_commit_shape — every path of every delete queued in one transaction is deleted, nothing else, and a transaction is committed in one shape (tx.partition tie); mlog_trimmed for a lowered bound; oracle also: retried commits, commits under a stale pointer, rewrite of a rewritten manifest, deleting current / oldest / interior snapshots then committing, retention under a clock stepping back, any-clock timestamp lookups.",
+                "step by step; an independent invariant checker reads the JSON and manifests after every step. all_queued_deletes_applied / queued_deletes_exact / one_commit_shape — every path of every delete queued in one transaction is deleted, nothing else, and a transaction is committed in one shape (tx.partition tie); mlog_trimmed for a lowered bound; oracle also: retried commits, commits under a stale pointer, rewrite of a rewritten manifest, deleting current / oldest / interior snapshots then committing, retention under a clock stepping back, any-clock timestamp lookups."
+                " A data file listed by two manifests (queued again through the file-level API) is deleted from both.",
         "design_ref": "§6 C15",
         "note": "Snapshot ids assumed fresh (random 63-bit ids). Manifest-rewrite model is at entry level; Avro encoding observed via the independent reader.",
         "technique": "Lean 4 invariant by induction over operations (WF) + algebraic theorems; model/implementation correspondence on histories",
@@ -233,7 +248,8 @@ CLAIMED = {
                 "deleted; gc_live — an unkept old listed file is deleted; gc_deletes_only_old_unkept. The normaliser as found is refuted in "
                 "Lean (norm_agrees_refuted) and was replayed on the real collector, then repaired. Correspondence: _normalize_path and "
                 "_gc_prefix vs the model; oracle: real histories at 12 location spellings (incl. d, data, m, metadata, symlink, S3 prefixes) "
-                "with aged files and open transactions, deleted set vs independently computed reachability over ALL retained snapshots.",
+                "with aged files and open transactions, deleted set vs independently computed reachability over ALL retained snapshots."
+                " Live transactions holding pre-built files (same base name in two partition directories) across collections.",
         "design_ref": "§6 C05",
         "note": "The collector's reachability walk and marker loading are exercised end to end here and modelled step-wise under C07/C06; "
                 "the for-all-histories store invariant (history_wf) is not proved in Lean yet — covered by the history oracle.",
@@ -257,7 +273,8 @@ CLAIMED = {
                 "GET is non-empty and inside the object; retry_masks_transient / permanent_fast_fail / nonretryable_fast_fail / "
                 "retry_exhausted / attempts_bounded for every failure sequence and retry budget; listing_agrees — S3 listing under dir+'/' "
                 "equals the local directory listing for every file set (string-level proof on '/'-joined keys). Correspondence: S3RangeFile, "
-                "retry_with_backoff and list_files vs the model on enumerated programs / attempt sequences / twin-backend traces each run.",
+                "retry_with_backoff and list_files vs the model on enumerated programs / attempt sequences / twin-backend traces each run."
+                " Uploads broken after the body went out; IncompleteRead / read-timeout / connection-closed body failures; connection-level exceptions without an HTTP answer.",
         "design_ref": "§6 C20",
         "note": "S3 is replaced by harness/fakes3.py (strong consistency, atomic PUT, exact ranged GET = the assumed contract); "
                 "CPython BufferedReader observed, not proved; directory existence of emptied local directories is outside the contract.",
@@ -269,7 +286,8 @@ CLAIMED = {
                 "conditions; apis_agree_batches/_records/_nochecksum — any batch size, record iteration and the unverified path return what scan "
                 "returns; parse_table_correct on the operator tables regenerated from the source each run; compile_* — malformed shapes raise. "
                 "The models are compared with the real _build_condition/parse_filter_dict on exhaustive small domains every run, and every "
-                "scan API × option × projection is compared with an independent SQL evaluator on real tables.",
+                "scan API × option × projection is compared with an independent SQL evaluator on real tables."
+                " Tables in one process alternate their field-id numbering (same schema id, names, order).",
         "design_ref": "§6 C12",
         "note": "Values abstracted to NULL/NaN/Int; pyarrow compute kernels observed each run, not proved; NaN inside value sets unspecified; "
                 "NULLs in value sets dropped (library contract). Cross-type literals that every API rejects are treated as malformed.",
@@ -279,7 +297,8 @@ CLAIMED = {
         "text": "Theorem prune_sound (Lean, unbounded: every column content incl. NULL/NaN, operator, literal, value set): a file skipped "
                 "by its computed bounds holds no SQL-TRUE row; codec_roundtrip for the typed bound encoding; inWalk_eq for the lazy any(). "
                 "The model of _compute_column_bounds/_file_may_match/_encode_bound is compared with the real functions on an exhaustive "
-                "small domain every run, and real multi-file tables are scanned with and without pruning.",
+                "small domain every run, and real multi-file tables are scanned with and without pruning."
+                " Float32 columns: bounds describe the STORED value (0.1f, 0.7f, 2^24+1) not the Python float handed in.",
         "design_ref": "§6 C13",
         "note": "Values abstracted to NULL/NaN/Int (order-isomorphic domains); pyarrow min/max and is_in semantics observed, not proved. "
                 "Cross-type literals (float32 narrowing) are outside the model and covered by the end-to-end oracle only.",
